@@ -834,7 +834,12 @@ class Sym:
             if extent is None or extent > 64 or 'loop body' not in str(e):
                 raise
             impure = e
-        if impure is not None:
+        consts = None
+        if impure is None and extent is not None and extent <= 8 and isinstance(r, tuple) and r[:1] == ('global',):
+            # a search over a small constant table of pointers or scalars (`for (auto p : table) if (test(*p)) return *p;`): the rows
+            # are known -- the loop is run row by row on what each row holds instead of being summarised as `some element`
+            consts = self.const_table_rows(r[1], extent, pristine)
+        if impure is not None or consts is not None:
             states = [(pristine, None)]
             for i in range(extent):
                 nxt = []
@@ -842,8 +847,8 @@ class Sym:
                     if sig is not None or s1.throw is not None:
                         nxt.append((s1, sig))
                         continue
-                    s1.env[('v', s['var']['id'])] = ('index', r, ('k', i, 'int'))
-                    if s['var'].get('ref'):
+                    s1.env[('v', s['var']['id'])] = consts[i] if consts is not None else ('index', r, ('k', i, 'int'))
+                    if s['var'].get('ref') and consts is None:
                         s1.env[('isref', s['var']['id'])] = True
                     for s2, sig2 in self.exec(s['b'], s1):
                         if sig2 == 'break':
@@ -1692,6 +1697,32 @@ class Sym:
                 if t in self.F.rec:
                     return t
         return None
+
+    def const_table_rows(self, q, extent, st):
+        """values of the rows of a constant-initialised const array of pointers / scalars / enumerations, or None"""
+        g = self.global_by_q(q)
+        if g is None or not g.get('const') or not g.get('constant_init', True) or (g.get('init') or {}).get('k') != 'initlist':
+            return None
+        import re as _re
+        m = _re.match(r'^(?:const )?(.*?)\s*\[\d+\]$', (g.get('t') or '').strip())
+        if not m:
+            return None
+        et = m.group(1).strip()
+        if not (et.endswith('*') or et.endswith('*const') or et.replace('const ', '').strip() in _INT_TYPES or et.replace('const ', '').strip() in self.F.enums):
+            return None
+        elts = g['init'].get('elts', [])
+        if len(elts) != extent:
+            return None
+        rows = []
+        for e in elts:
+            try:
+                r = self.ev(e, st.fork())
+            except Unsupported:
+                return None
+            if len(r) != 1 or r[0][0].throw is not None or r[0][1] is None:
+                return None
+            rows.append(r[0][1])
+        return rows
 
     def global_by_q(self, q):
         if not hasattr(self, '_gq'):
